@@ -505,15 +505,34 @@ def suppNode (g : PGraph) (i : Nat) : Bool :=
 def RankOK (g : PGraph) (inp : Nat → Option (Arr Val)) : Prop :=
   ∀ c a, den g inp c = some a → a.shape.length = (g.get c).shape.length
 
-/-- NumPy raises on none of the graph's operations for these inputs (operand shapes broadcast,
-    every input is supplied) -/
-def Defined (g : PGraph) (inp : Nat → Option (Arr Val)) : Prop :=
-  ∀ j, notDict g j = true → (den g inp j).isSome
-
 /-- every node reachable from `root` is in the fragment (fuel-indexed closure) -/
 def suppAll (g : PGraph) : Nat → Nat → Bool
   | 0, _ => false
   | fuel + 1, i => suppNode g i && (kidsOf g i).all (suppAll g fuel)
+
+/-- NumPy raises on none of the graph's operations for these inputs (operand shapes broadcast,
+    every input is supplied): every node of the fragment has a value -/
+def Defined (g : PGraph) (inp : Nat → Option (Arr Val)) : Prop :=
+  ∀ j, suppNode g j = true → notDict g j = true → (den g inp j).isSome
+
+/-! ## what the driver reports about a graph -/
+
+def PNode.kindName : PNode → String
+  | .placeholder _ => "Placeholder" | .dataWrapper _ => "DataWrapper" | .sizeParam _ => "SizeParam"
+  | .indexLambda .. => "IndexLambda" | .roll .. => "Roll" | .perm .. => "AxisPermutation"
+  | .reshape .. => "Reshape" | .stack .. => "Stack" | .concat .. => "Concatenate"
+  | .index _ ix => if ix.any (fun | .arr _ => true | _ => false) then "AdvancedIndex" else "BasicIndex"
+  | .einsum .. => "Einsum" | .alias _ => "NamedArray" | .dict _ => "DictOfNamedArrays"
+  | .refused k => k | .other k => k
+
+/-- the check the driver evaluates: children below parents, every node (up to the root) in the
+    fragment — this implies `WFG` and `suppAll` (`PtProofs.C14PyGen.fragment_check_sound`) -/
+def fragmentCheck (g : PGraph) (root : Nat) : Bool :=
+  wfG g && (List.range (root + 1)).all (suppNode g)
+
+/-- kinds of the nodes that are outside the fragment -/
+def outsideFragment (g : PGraph) (root : Nat) : List String :=
+  (((List.range (root + 1)).filter fun j => !suppNode g j).map fun j => (g.get j).node.kindName).eraseDups
 
 end Py
 end Pt
